@@ -912,6 +912,25 @@ impl<'p, W, R, T> CompilationScope<'p, W, R, T> {
         }
     }
 
+    /// compile the default value of a parameter; its type must be assignable to the parameter's
+    pub(crate) fn compile_default(
+        &mut self,
+        default: XStaticExpr<W, R, T>,
+        param_type: &Arc<XType>,
+        param_name: Identifier,
+    ) -> Result<XExpr<W, R, T>, CompilationError> {
+        let compiled = self.compile(default)?;
+        let actual_type = self.type_of(&compiled)?;
+        if param_type.bind_in_assignment(&actual_type).is_none() {
+            return Err(CompilationError::VariableTypeMismatch {
+                variable_name: param_name,
+                expected_type: param_type.clone(),
+                actual_type,
+            });
+        }
+        Ok(compiled)
+    }
+
     pub(crate) fn type_of(&self, expr: &XExpr<W, R, T>) -> Result<Arc<XType>, CompilationError> {
         match expr {
             XExpr::LiteralBool(..) => Ok(X_BOOL.clone()),
